@@ -62,11 +62,9 @@ Definition t_set_doc_on_child (h : heap) (s : nat) : bool :=
   is_some (n_parent (nd h s)) && negb (is_some (n_doc (nd h s))).
 
 (* 6 push-children-half-applied: Ruby/Rtc.push_children validate the kinds of the whole list and then
-     push one by one; a later child that cannot be pushed (parented, other document, repeated,
-     ancestor) leaves a prefix of the pattern behind *)
-Definition pushable (h : heap) (s c : nat) : bool :=
-  negb (is_some (n_parent (nd h c))) && onat_eqb (n_doc (nd h c)) (n_doc (nd h s)) &&
-  match anc_walk (S (nnodes h)) h (Some s) c with Some false => true | _ => false end.
+     push one by one; when the first child is attached and a later one cannot be (already parented,
+     other document, repeated in the list, an ancestor) the call raises and leaves a prefix of the
+     pattern behind *)
 Definition t_push_children_half (h : heap) (s : nat) (cs : list nat) : bool :=
   let ks := map (kind_of h) cs in
   match kind_of h s with
@@ -76,7 +74,11 @@ Definition t_push_children_half (h : heap) (s : nat) (cs : list nat) : bool :=
   end &&
   match cs with
   | [] => false
-  | c0 :: _ => pushable h s c0 && negb (nodupb cs && forallb (pushable h s) cs)
+  | c0 :: rest =>
+    match ce_push_child h s c0 with
+    | RErr _ _ => false
+    | ROk h1 => match each (fun h' c => ce_push_child h' s c) rest h1 with RErr _ _ => true | ROk _ => false end
+    end
   end.
 
 (* 7 rtc-lone-rp: Rtc.push_child accepts an Rp as the first child of an empty Rtc (and then accepts
